@@ -780,6 +780,8 @@ func (c *ExecCtx) loopSpecFor(node ast.Node, rangeX ast.Expr) (*LoopSpec, string
 		ord = c.loopOrd
 		c.loopOrd++
 		c.loopIdx[node] = ord
+	} else if c.loopOrd <= ord {
+		c.loopOrd = ord + 1
 	}
 	if c.spec == nil {
 		return nil, fmt.Sprint(ord)
